@@ -128,14 +128,24 @@ def main(tier):
             tw = [f"pegtrace {cfg} {hx(src)}" for prior, src, cfg, o, what, rep in leak_checks]
             ta = go_child().run(tl)
             tb = go_child().run(tw)
-            for (prior, src, cfg, o, what, rep), a, b in zip(leak_checks, ta, tb):
+            # where the leak happened: the engine model's journal (rule in which a sequence failed after writing code)
+            sites = lean_child().run([f"pegleaks {cfg} {hx(src)}" for prior, src, cfg, o, what, rep in leak_checks])
+            known_sites = set(run.known.get("C03-emit-then-fail-leak", {}).get("witness", {}).get("sites", []))
+            for (prior, src, cfg, o, what, rep), a, b, ls in zip(leak_checks, ta, tb, sites):
                 rep["trace_matched_alone"] = a[:300]
                 rep["trace_whole"] = b[:300]
+                rep["leak_sites"] = ls
                 wa = a.split()
                 wb = b.split()
-                if wa and wb and wa[0] == "ok" and wb[0] == "ok" and wa[-1] != wb[-1] and o < len(src):
-                    run.known_finding("C03-emit-then-fail-leak", rep)
-                    run.count("oracle.leak")
+                here = set(ls.split()[1].split(",")) if ls.startswith("ok ") and ls.split()[1] != "-" else set()
+                if wa and wb and wa[0] == "ok" and wb[0] == "ok" and wa[-1] != wb[-1] and o < len(src) and here:
+                    new = here - known_sites
+                    if new:
+                        run.violation("new-emit-then-fail-site:" + ",".join(sorted(new)), rep)
+                    else:
+                        run.known_finding("C03-emit-then-fail-leak", rep)
+                        for s_ in here:
+                            run.count("oracle.leak@" + s_)
                 else:
                     run.violation("matched-alone-differs:" + what, rep)
         run.sample({"stream": "peg", "line": lines[0][:200], "out": g_out[0][:200]})
